@@ -263,7 +263,7 @@ PROPS["C11"] = {
     "level_note": "trusted: TLC, BigInt/EcMul overrides (self-tested), harness logging",
     "exhaustive": _ECDSA_A,
     "drivers": [{"driver": "recover", "trace": "Trace_Ecdsa"}],
-    "require_classes": {"quick": ["rec_v_ge4", "rec_hi_ok", "rec_hi_overflow", "rec_not_x", "rec_q_inf", "rec_rs_zero", "rec_ok", "accept"]},
+    "require_classes": {"quick": ["rec_v_ge4", "rec_hi_ok", "rec_hi_overflow", "rec_not_x", "rec_q_inf", "rec_rs_zero", "rec_ok", "accept", "digest_ge_n", "digest_long"]},
     "assumptions": ["full-size inputs are constructed per corner class and decided by an exact oracle"],
 }
 
@@ -316,7 +316,7 @@ PROPS["C13"] = {
     "level_note": "trusted: TLC, BigInt/EcMul/SHA-256 overrides (self-tested), harness logging; the tagged-hash accessor is used only to steer inputs",
     "exhaustive": _SCHNORR_A,
     "drivers": [{"driver": "schnorr", "trace": "Trace_Schnorr"}],
-    "require_classes": {"quick": ["pk_ok", "pk_not_on_curve", "pk_ge_p", "pk_bad_len", "vfy_accept", "vfy_reject", "r_ge_p", "s_ge_n", "s_zero",
+    "require_classes": {"quick": ["pk_ok", "pk_x_ge_n", "pk_not_on_curve", "pk_ge_p", "pk_bad_len", "vfy_accept", "vfy_reject", "r_ge_p", "s_ge_n", "s_zero",
                                   "R_odd_y", "R_inf", "x_mismatch", "msg_len_0", "msg_len_odd", "msg_len_long", "sig_bad_len", "vector"]},
     "assumptions": ["full-size inputs are constructed per corner class and decided by an exact oracle"],
 }
@@ -387,7 +387,7 @@ PROPS["C18"] = {
     "require_classes": {"quick": ["alias_recv", "alias_args", "alias_all", "kind_panic", "kind_err", "kind_ok", "uninit_operand", "decode_fail_valid_recv",
                                   "decode_fail_uninit_recv", "decode_ok", "key_ctor_ok", "key_ctor_err", "mutate_with_key", "mutate_buf_with_key",
                                   "mutate_scalar_with_key", "mutate_point_with_key", "msm", "msm_mismatch", "scalar_decode_err", "reply", "reset",
-                                  "schnorr_ctor_ok", "schnorr_ctor_err", "mutate_with_schnorr_key", "recover_call", "coords_call"]},
+                                  "schnorr_ctor_ok", "schnorr_ctor_err", "mutate_with_schnorr_key", "recover_call", "coords_call", "fresh_ctor"]},
     "assumptions": ["histories are sampled by TLC's simulator from the exhaustive call set (all alias patterns are enumerated; sequences are random); the depth-bounded "
                     "exhaustive exploration is on the miniature curve",
                     "Schnorr key objects, signing and hash-to-curve are not part of the pool model (covered functionally by C13-C15)"],
